@@ -203,7 +203,7 @@ def run(tier):
     run.classify(fails, key_of, confirm)
     if twin_bad: run.notes.append("alias-free twins rejected (owned by the layer's own property, not counted here): %s" % sorted(set(twin_bad))[:20])
     nreq = sum(len(v) for v in required.values())
-    run.extra.update({"obligations": {"catalogue_operations_with_patterns": len(plan), "required_key_code_pairs": nreq,
+    run.extra.update({"alias_obligations": {"catalogue_operations_with_patterns": len(plan), "required_key_code_pairs": nreq,
                                       "exercised_pairs": len(verdict), "aliased_runs_judged": sum(v[2] for v in verdict.values())},
                       "uncovered_operations": uncovered,
                       "other_layers_not_in_property": ["%s %s (codes %s)" % (o["file"], o["name"], o["codes"]) for o in other]})
